@@ -753,6 +753,7 @@ func c03PrefixFromZero(p *Prog, r *Report) {
 			// the refusal: an error return under a lower and an upper bound on the target offset
 			var lowMin *int64
 			hasUpper := false
+			upperKey := ""
 			for _, g := range guardsAt(ret.Block()) {
 				bo, ok := g.Cond.(*ssa.BinOp)
 				if !ok || !g.Pol || !isIntegerType(bo.X.Type()) {
@@ -795,6 +796,11 @@ func c03PrefixFromZero(p *Prog, r *Report) {
 				}
 				if extra > 0 {
 					hasUpper = true
+					for key, c := range form {
+						if c != 0 && !rel[key] && c != relC {
+							upperKey = key
+						}
+					}
 					continue
 				}
 				// T*relC + konst  op  0
@@ -825,6 +831,39 @@ func c03PrefixFromZero(p *Prog, r *Report) {
 			if lowMin == nil || !hasUpper {
 				continue
 			}
+			// the scan that looks for such branches runs over the whole function, not just over the bytes that will be
+			// overwritten: the loop that advances the position is bounded by something other than the refused interval's
+			// upper end
+			okScan := true
+			eachInstr(f, func(i ssa.Instruction) {
+				iff, ok := i.(*ssa.If)
+				if !ok {
+					return
+				}
+				bo, ok := iff.Cond.(*ssa.BinOp)
+				if !ok || (bo.Op != token.LEQ && bo.Op != token.LSS) {
+					return
+				}
+				ph, isPhi := resolveLocal(bo.X).(*ssa.Phi)
+				if !isPhi || !isIntegerType(ph.Type()) {
+					return
+				}
+				// a loop header: the block has a back edge
+				hdr := false
+				for _, pr := range iff.Block().Preds {
+					if iff.Block().Dominates(pr) {
+						hdr = true
+					}
+				}
+				if !hdr {
+					return
+				}
+				if upperKey != "" && k.Key(resolveLocal(bo.Y)) == upperKey {
+					okScan = false
+				}
+			})
+			r.Check(okScan, "C03.R3", "scan for branches into the prefix covers the function in "+shortName(f), p.Pos(posOf(ret)), "the scanning loop is not bounded by the end of the overwritten prefix",
+				"the loop that looks for branches into the overwritten bytes stops at the end of those bytes: a loop back-edge further down the function that jumps into the entry jump is no longer found, the apply succeeds and that branch lands in the middle of the jump")
 			n++
 			r.Check(*lowMin <= 0, "C03.R3", "branch to the first overwritten byte is refused by "+shortName(f), p.Pos(posOf(ret)), "refused target offsets start at 0",
 				fmt.Sprintf("the check refuses branches into the overwritten entry bytes only from offset %d on: a branch to the function's first byte (the `JMP start` that ends the compiler's stack-growth path of every non-leaf function) is accepted, so after the prologue was moved to the placeholder it lands on the entry jump — calling the origin placeholder with little stack headroom re-enters the mock", *lowMin))
